@@ -58,6 +58,16 @@ func (s *vfSim) vfDumpTrace() {
 				fmt.Fprintf(&sb, " SACK(cum=%d arwnd=%d gaps=%v dups=%v)", c.CumTSN, c.ARwnd, c.Gaps, c.Dups)
 			case c.Type == vfCtForwardTSN || c.Type == vfCtIForwardTSN:
 				fmt.Fprintf(&sb, " %s(new=%d %v)", c.kind(), c.NewCum, c.Fwd)
+			case c.Type == vfCtReconfig:
+				fmt.Fprintf(&sb, " RECONFIG(")
+				for _, pr := range c.Params {
+					if rq, ok := vfParseResetReq(pr); ok {
+						fmt.Fprintf(&sb, "req rsn=%d last=%d sids=%v;", rq.ReqSeq, rq.LastTSN, rq.SIDs)
+					} else if seq, r, ok := vfParseResetResp(pr); ok {
+						fmt.Fprintf(&sb, "resp rsn=%d result=%d;", seq, r)
+					}
+				}
+				fmt.Fprintf(&sb, ")")
 			default:
 				fmt.Fprintf(&sb, " %s", c.kind())
 			}
